@@ -537,6 +537,18 @@ func (m *M) loadedCopy(src *Inst, name string) *Inst {
 	for h := range src.invalid {
 		inst.invalid[h] = true
 	}
+	for _, h := range m.cfgInvalid {
+		// Load merges the configured list into the stored one. A configured hash that was unmarked
+		// and whose header was accepted again before this Load is a contradiction in the caller's
+		// own input (the configuration still calls it invalid): neither C17 nor the documentation
+		// says what the restart does with it, so the model leaves it valid and the verdict oracle
+		// tolerates "marked invalid" for it from then on.
+		if n := m.tree.ByHash[h]; n != nil && (src.acc[n] || src.forgot[n]) {
+			inst.cfgAmbiguous[h] = true
+			continue
+		}
+		inst.invalid[h] = true
+	}
 	for n := range src.excluded {
 		inst.excluded[n] = true
 	}
@@ -545,6 +557,9 @@ func (m *M) loadedCopy(src *Inst, name string) *Inst {
 	inst.floor = src.floor
 	for n := range src.forgot {
 		inst.forgot[n] = true
+	}
+	for h := range src.cfgAmbiguous {
+		inst.cfgAmbiguous[h] = true
 	}
 	m.shrinkHeld(inst)
 	// what Load does not restore is no longer an accepted header of this instance
